@@ -14,6 +14,12 @@
 (*   Split._fill  every branch but the last gets deepcopy(val), the last   *)
 (*                val itself; compute()/request() in branch order          *)
 (*   Zip._fill    every branch gets deepcopy(val)                          *)
+(* The flow values have a shape (IsolationSem): pairs with a context or     *)
+(* bare data objects (hashable although mutable); a typed Variable puts a  *)
+(* dictionary with a sub-dictionary into the context.  CopyMode "hashable" *)
+(* (what if Split._fill passed hashable values uncopied) and "varshallow"  *)
+(* (what if Variable copied its var_context shallowly: the sub-dictionary  *)
+(* is then the element's own object, heap id 1) are refuted by TLC.        *)
 (* Branch elements mutate the objects they are given (HApply).             *)
 (* Declarative part: Alone(branch, xs, bs) - what the branch yields when   *)
 (* it is the only one and works on pure (immutable) values.                *)
@@ -37,6 +43,8 @@ EXTENDS IsolationSem, Json
 
 CONSTANTS MaxBr, MaxN, BufSizes, Templates,
           FillBr, FillTemplates,     \* longer branch lists over fewer templates for the fill-driven Split and Zip
+          ExtraBr,                   \* branch lists over VarTemplates (shape "pair") / DataTemplates (other shapes)
+          Shapes,                    \* shapes of the flow values
 
           CopyMode      \* "deep" (the code), "shallow" / "none": what if the copies were weaker
 
@@ -47,24 +55,35 @@ Seqs(n) == IF n = 0 THEN {<<>>}
 (***************************************************************************)
 (* Operational machine.                                                    *)
 (***************************************************************************)
-VARIABLES brs, N, bs, drv, rq,     \* scenario
+VARIABLES brs, N, bs, drv, rq, shape,     \* scenario
           M,                       \* heap
           src,                     \* the flow values as the producer created them (VRefs)
           pos, orig, active, ind,  \* Split.run: values read, current block, active branches, index
           bst,                     \* per branch: stored VRefs, number of fills, stopped, count of Count.run
           out,                     \* yielded: [b, r |-> VRef, x |-> snapshot when yielded]
           phase
-vars == <<brs, N, bs, drv, rq, M, src, pos, orig, active, ind, bst, out, phase>>
-scen == <<brs, N, bs, drv, rq>>
+vars == <<brs, N, bs, drv, rq, shape, M, src, pos, orig, active, ind, bst, out, phase>>
+scen == <<brs, N, bs, drv, rq, shape>>
 
 InitBst(bb) == [j \in 1..Len(bb) |-> [stored |-> <<>>, nf |-> 0, runcount |-> 0, done |-> FALSE]]
 RECURSIVE FillSeqs(_)
 FillSeqs(n) == IF n = 0 THEN {<<>>}
                ELSE LET Pr == FillSeqs(n - 1) IN
                     Pr \cup {Append(p, a) : p \in {x \in Pr : Len(x) = n - 1}, a \in FillTemplates}
-Init == /\ brs \in Seqs(MaxBr) \cup FillSeqs(FillBr) /\ N \in 0..MaxN /\ bs \in BufSizes
+RECURSIVE TSeqs(_, _)
+TSeqs(T, n) == IF n = 0 THEN {<<>>}
+               ELSE LET Pr == TSeqs(T, n - 1) IN Pr \cup {Append(p, a) : p \in {x \in Pr : Len(x) = n - 1}, a \in T}
+ElemSub == IF CopyMode = "varshallow" THEN 1 ELSE 0
+\* constant-level sets (evaluated once): branch lists for flows of pairs / of other shapes / for Split.run
+RunBrs == Seqs(MaxBr) \cup TSeqs(VarTemplates, ExtraBr)
+PairBrs == RunBrs \cup FillSeqs(FillBr)
+DataBrs == TSeqs(DataTemplates, ExtraBr)
+Init == /\ shape \in Shapes
+        /\ \/ shape = "pair" /\ brs \in PairBrs
+           \/ shape # "pair" /\ brs \in DataBrs
+        /\ N \in 0..MaxN /\ bs \in BufSizes
         /\ drv \in {"run", "fill", "fillreq", "zip"} /\ rq \in {0, 1}
-        /\ (drv = "run" => rq = 0 /\ brs \in Seqs(MaxBr))
+        /\ (drv = "run" => rq = 0 /\ (shape # "pair" \/ brs \in RunBrs))
         /\ (drv = "fill" => /\ rq = 0 /\ bs = 1 /\ brs # <<>>
                             /\ \A j \in 1..Len(brs) : IsFC(brs[j]) /\ brs[j].stop = None)
         \* Zip: fill/compute branches (compute at the end) or fill/request branches (request like fillreq)
@@ -73,7 +92,8 @@ Init == /\ brs \in Seqs(MaxBr) \cup FillSeqs(FillBr) /\ N \in 0..MaxN /\ bs \in 
                            /\ (IsFC(brs[1]) /\ rq = 0) \/ brs[1].end = "fr")
         /\ (drv = "fillreq" => /\ bs = 1 /\ brs # <<>>
                                /\ \A j \in 1..Len(brs) : brs[j].end = "fr" /\ brs[j].stop = None)
-        /\ LET r == AllocAll(EmptyHeap, Flow(N)) IN M = r.M /\ src = r.vs
+        /\ LET M0 == IF ElemSub > 0 THEN NewCell(EmptyHeap, DCell(VarSub("x"))) ELSE EmptyHeap   \* the element's own object
+               r == AllocAll(M0, FlowS(N, shape)) IN M = r.M /\ src = r.vs
         /\ pos = 0 /\ orig = <<>> /\ active = [j \in 1..Len(brs) |-> j] /\ ind = 1
         /\ bst = InitBst(brs) /\ out = <<>>
         /\ phase = IF brs = <<>> THEN "done" ELSE "read"
@@ -86,6 +106,7 @@ Entries(h, b, vs) == [j \in 1..Len(vs) |-> Entry(h, b, vs[j])]
 \* CopyMode = "eqlast": what if Split._fill recognised the last branch by == (structural equality of
 \* lena sequences and elements) instead of by position
 NeedsCopy == /\ CopyMode # "none"
+             /\ ~(CopyMode = "hashable" /\ drv \in {"fill", "fillreq"} /\ shape \in BareShapes)
              /\ CASE drv = "run" -> ind < Len(active)               \* n_of_active_seqs - ind > 1
                   [] drv \in {"fill", "fillreq"} ->
                        IF CopyMode = "eqlast" THEN brs[active[ind]] # brs[Len(brs)]
@@ -96,7 +117,7 @@ NeedsCopy == /\ CopyMode # "none"
 RECURSIVE RunSeq(_, _, _, _, _)
 RunSeq(Mm, b, vs, total, acc) ==
   IF vs = <<>> THEN [M |-> Mm, vs |-> acc]
-  ELSE LET r == HApplyAll(Mm, Head(vs), b.muts)
+  ELSE LET r == HApplyAllS(Mm, Head(vs), b.muts, ElemSub)
            M2 == IF HasCnt(b) /\ Len(vs) = 1 THEN HSetKey(r.M, r.v.c, CntName(b), total) ELSE r.M
        IN RunSeq(M2, b, Tail(vs), total, Append(acc, r.v))
 \* fill a fill/compute or fill/request branch with a buffer: mutators, then the collector;
@@ -104,7 +125,7 @@ RunSeq(Mm, b, vs, total, acc) ==
 RECURSIVE FillBuf(_, _, _, _)
 FillBuf(Mm, b, s, vs) ==
   IF vs = <<>> THEN [M |-> Mm, s |-> s, stopped |-> FALSE]
-  ELSE LET r == HApplyAll(Mm, Head(vs), b.muts) IN
+  ELSE LET r == HApplyAllS(Mm, Head(vs), b.muts, ElemSub) IN
        IF b.stop # None /\ s.nf >= b.stop THEN [M |-> r.M, s |-> s, stopped |-> TRUE]
        ELSE FillBuf(r.M, b, [s EXCEPT !.stored = Append(@, r.v), !.nf = @ + 1], Tail(vs))
 \* compute() of a fill/compute branch: [M, vs]
@@ -117,7 +138,7 @@ ComputeOf(Mm, b, s) ==
            M2 == NewCell(cc.M, LCell(<<s.nf>>))
        IN [M |-> M2, vs |-> <<[d |-> cc.M.n, c |-> cc.id]>>]
 
-Fixed == UNCHANGED <<brs, N, bs, drv, rq, src>>
+Fixed == UNCHANGED <<brs, N, bs, drv, rq, shape, src>>
 ReadBlock ==
   /\ phase = "read" /\ Fixed
   /\ LET k == IF bs = None THEN N - pos ELSE Min(bs, N - pos) IN
@@ -133,7 +154,7 @@ BranchSrc ==
   /\ active' = RemoveAt(active, ind) /\ UNCHANGED <<pos, orig, ind, bst, phase>>
 
 Buffer == IF ~NeedsCopy THEN [M |-> M, vs |-> orig]
-          ELSE IF CopyMode \in {"deep", "eqlast"} THEN DeepCopyAll(M, orig) ELSE ShallowCopyAll(M, orig)
+          ELSE IF CopyMode = "shallow" THEN ShallowCopyAll(M, orig) ELSE DeepCopyAll(M, orig)
 
 BranchSeq ==
   /\ phase = "branches" /\ ind <= Len(active) /\ brs[active[ind]].end = "seq" /\ Fixed
@@ -215,13 +236,13 @@ WhenYielded(es) == [j \in 1..Len(es) |-> es[j].x]
 AtEnd(es) == [j \in 1..Len(es) |-> SnapVal(M.h, es[j].r)]
 \* each branch yields what it would yield alone on a private copy of the flow
 Isolated == Done => \A b \in 1..Len(brs) :
-               /\ WhenYielded(Proj(out, b)) = Alone(brs[b], Flow(N), bs)
-               /\ AtEnd(Proj(out, b)) = Alone(brs[b], Flow(N), bs)
+               /\ WhenYielded(Proj(out, b)) = Alone(brs[b], FlowS(N, shape), bs)
+               /\ AtEnd(Proj(out, b)) = Alone(brs[b], FlowS(N, shape), bs)
 \* what has been yielded never changes afterwards (no later mutation reaches it)
 YieldedStable == \A j \in 1..Len(out) : SnapVal(M.h, out[j].r) = out[j].x
 \* along the run every yielded prefix is a prefix of the isolated result
 IsPrefix(a, c) == Len(a) <= Len(c) /\ a = SubSeq(c, 1, Len(a))
-PrefixIsolated == \A b \in 1..Len(brs) : IsPrefix(WhenYielded(Proj(out, b)), Alone(brs[b], Flow(N), bs))
+PrefixIsolated == \A b \in 1..Len(brs) : IsPrefix(WhenYielded(Proj(out, b)), Alone(brs[b], FlowS(N, shape), bs))
 \* the objects held by different branches are disjoint
 Held(b) == UNION {Reach(M.h, bst[b].stored[j]) : j \in 1..Len(bst[b].stored)}
 HeldDisjoint == \A b1, b2 \in 1..Len(brs) : b1 # b2 => Held(b1) \cap Held(b2) = {}
@@ -231,7 +252,7 @@ OnlyLastSeesSource == (CopyMode = "deep" /\ drv # "zip") =>
    \A b \in 1..Len(brs) : (Held(b) \cap SrcObjs # {}) => b = Len(brs) \/ \A j \in (b + 1)..Len(brs) : brs[j].end = "src" \/ bst[j].done
 ZipNeverSeesSource == drv = "zip" => \A b \in 1..Len(brs) : Held(b) \cap SrcObjs = {}
 
-Expected == [b \in 1..Len(brs) |-> Alone(brs[b], Flow(N), bs)]
+Expected == [b \in 1..Len(brs) |-> Alone(brs[b], FlowS(N, shape), bs)]
 \* the flow values as the caller holds them afterwards (the last branch works on them: documented)
 SrcAfter == [j \in 1..Len(src) |-> SnapVal(M.h, src[j])]
 \* the producer's values are changed by nobody but the branch that is given the original
@@ -239,11 +260,11 @@ SrcAfter == [j \in 1..Len(src) |-> SnapVal(M.h, src[j])]
 StripC(c) == [k \in (DOMAIN c) \ {"cnt", "c1"} |-> c[k]]
 SourceByLastOnly == (Done /\ CopyMode = "deep") => \A j \in 1..Len(src) :
    LET a == SnapVal(M.h, src[j]) IN
-   \/ a = X(j)
+   \/ a = XS(j, shape)
    \/ /\ drv # "zip"
       /\ \E b \in 1..Len(brs) : /\ brs[b].end # "src"
-                                /\ LET y == PApplyAll(X(j), brs[b].muts) IN
-                                   StripC(a.c) = StripC(y.c) /\ a.d \in {X(j).d, y.d}
-Emitted == Done => PrintT(ToJson([brs |-> brs, N |-> N, bs |-> bs, drv |-> drv, rq |-> rq, exp |-> Expected,
+                                /\ LET y == PApplyAll(XS(j, shape), brs[b].muts) IN
+                                   StripC(a.c) = StripC(y.c) /\ a.d \in {XS(j, shape).d, y.d}
+Emitted == Done => PrintT(ToJson([brs |-> brs, N |-> N, bs |-> bs, drv |-> drv, rq |-> rq, shape |-> shape, exp |-> Expected,
                                   src |-> SrcAfter]))
 =============================================================================
